@@ -667,6 +667,8 @@ def run(ck: Checker) -> None:
     ck.guard("R-TYPES-ALL", lambda: r_types_all(ck))
     ck.guard("R-CAPTURE", lambda: r_capture(ck))
     ck.guard("R-CAPTURE", lambda: r_ctx_flow(ck))
+    from . import state_rules as S_
+    ck.guard("R-PURE-MATCH", lambda: S_.r_unstable_key(ck, "R-PURE-MATCH", [(PAT, "BaseMatcher"), (PAT, "NodeMatcher._match"), (PAT, "SequenceMatcher"), (PAT, "ValueMatcher"), (PAT, "RegexMatcher"), (PAT, "VarMatcher"), (PAT, "AnyMatcher"), (PAT, "AlternativeMatcher"), (PAT, "MultiPatternMatcher.match")], "what a pattern matches does not depend on earlier matches"))
     ck.guard("R-SINGLETON-STATE", lambda: r_singleton_state(ck, matcher_classes(ck)))
     ck.guard("R-POSTINIT-IDEMP", lambda: r_postinit_idemp(ck))
     ck.guard("R-PURE-MATCH", lambda: r_pure_match(ck))
